@@ -97,6 +97,18 @@ CHECKS = {
   design_ref="DESIGN.md §6 C11",
   note="'never loops' is bounded observation (60 s per read); payload changes under an unchanged 9000 on unprotected exchanges are undetectable and not asserted.",
   technique="TLA+ spec (Session.tla) continuation table + exhaustive single-fault enumeration over every exchange of real reads against an independent chip"),
+ "C14": dict(
+  category="model_checking",
+  text="Evidence.tla writes the three offline evidence verifiers (pace.VerifyEvidence for PACE-CAM, chipauth.VerifyEvidence, activeauth.VerifyEvidence) as chains of checks over a symbolic Diffie-Hellman / MAC / signature term algebra; TLC checks that the genuine capture verifies, that replacing ANY single field (10 CAM + 4 CA + 3 AA fields) by a fresh value of the same type makes the corresponding verifier fail, that the documented joint replacement of ChipKaPub+EcadIC is the only two-field exception, and that the pre-repair design (algorithm field not compared) has the gap. Binding: live sessions of the real Reader against the chip simulator over the mechanisms (CA after BAC / after PACE, PACE-CAM, AA-RSA, AA-ECDSA, AA+CAM with untrusted issuer) with random curves / suites / key sizes are exported with the real ToCbor and verified offline with the real Verifier: the verdict vector (PA, completeness, AA, CAM, CA) and Summary must equal the live ones; then every evidence field named by the specification is replaced by each value-changing mutation (bit flip, shorter, longer, empty, oversized, the same field of ANOTHER genuine session of the same passport, other OIDs / parameter ids) and every obtained data group gets byte flips: the corresponding offline verdict must fail.",
+  design_ref="DESIGN.md §6 C14",
+  note="Value-preserving changes (leading zero octets of scalars, emptied SmSsc when the counter was 2 - documented legacy default, octets after a DER signature) are outside; EF.SOD / CardSecurity byte changes are judged by C01.",
+  technique="TLA+ spec (Evidence.tla) checked with TLC: every single-field replacement must fail; fields named by the spec tampered in real exports and verified with the real Verifier against live sessions with an independent chip"),
+ "C15": dict(
+  category="model_checking",
+  text="Envelope.tla models the three nested CBOR envelopes (magic, version, SHA-256, payload) with Import's checks in code order and Corrupt over 9 component classes x 3 levels; TLC checks RoundTrip for every subset of file kinds / evidence kinds, Detects (after one corruption the import is Reject or identical) and ForeignOrNewer, and prints the expected outcome of each (level, component) pair. Binding: documents from live sessions (all mechanisms), their no-evidence and fewer-files variants and the empty document are exported with the real ToCbor; EVERY byte position x substitution set, every truncation length and extensions are imported with the real UnmarshalVerifiableDoc / NewDocumentFromCbor; an independent minimal CBOR walker classifies each position into the specification's (level, component) class and the real outcome must be the specified one: error, or files + evidence + parsed view identical to the original.",
+  design_ref="DESIGN.md §6 C15",
+  note="The third-party CBOR decoder is abstracted as well-formed-or-not; only the outer version-down is accepted with unchanged content.",
+  technique="TLA+ spec (Envelope.tla) model-checked with TLC; expected outcome per (level, component) class replayed over every byte position of real exports"),
 }
 PENDING = {}
 
